@@ -10,46 +10,71 @@
 (* design the property forbids; it is kept so that TLC demonstrates the    *)
 (* invariant is not vacuous.  Crash (SIGKILL or os.Exit) may strike in     *)
 (* every state: it stops all goroutines and discards user-space buffers.   *)
+(*                                                                         *)
+(* The target is a file: a sequence of records.  A logger may hold several *)
+(* appenders (descriptors D) on the same file; a call writes its line      *)
+(* through each of them before it returns.  With Offsets = "append" every  *)
+(* write lands at the current end of the file (O_APPEND); with "private"   *)
+(* each descriptor keeps its own offset, positioned at the end when it was *)
+(* opened - the second forbidden design: a later write through another     *)
+(* descriptor overwrites an acknowledged line ("... and stays there").     *)
 (***************************************************************************)
 EXTENDS Naturals, Sequences, FiniteSets, TLC, Json
 
-CONSTANTS G, MaxCalls, WriteThrough
+CONSTANTS G, MaxCalls, WriteThrough,
+          D,          \* descriptors (appenders) on the one target file
+          Offsets     \* "append" | "private"
 
-VARIABLES pc, n, userBuf, kernel, acked, crashed, how
-vars == <<pc, n, userBuf, kernel, acked, crashed, how>>
+VARIABLES pc, n, todo, userBuf, file, off, acked, crashed, how
+vars == <<pc, n, todo, userBuf, file, off, acked, crashed, how>>
+
+\* what survives the process: the records in the file, <<descriptor, line>>
+kernel == { file[i] : i \in DOMAIN file }
 
 Line(g) == <<g, n[g]>>
 
 Init == /\ pc = [g \in G |-> "idle"] /\ n = [g \in G |-> 0]
-        /\ userBuf = <<>> /\ kernel = {} /\ acked = {} /\ crashed = FALSE /\ how = "none"
+        /\ todo = [g \in G |-> {}] /\ file = <<>> /\ off = [d \in D |-> 1]
+        /\ userBuf = <<>> /\ acked = {} /\ crashed = FALSE /\ how = "none"
 
 Call(g) == /\ ~crashed /\ pc[g] = "idle" /\ n[g] < MaxCalls
            /\ n' = [n EXCEPT ![g] = @ + 1] /\ pc' = [pc EXCEPT ![g] = "formatted"]
-           /\ UNCHANGED <<userBuf, kernel, acked, crashed, how>>
-\* one write(2) carrying the complete line
-SysWrite(g) == /\ ~crashed /\ pc[g] = "formatted" /\ WriteThrough
-               /\ kernel' = kernel \cup {Line(g)} /\ pc' = [pc EXCEPT ![g] = "written"]
-               /\ UNCHANGED <<n, userBuf, acked, crashed, how>>
+           /\ todo' = [todo EXCEPT ![g] = D]
+           /\ UNCHANGED <<userBuf, file, off, acked, crashed, how>>
+\* the record rec written through descriptor d: at the end of the file, or at d's private offset
+Put(f, d, rec) == IF Offsets = "append" \/ off[d] > Len(f) THEN Append(f, rec)
+                  ELSE [f EXCEPT ![off[d]] = rec]
+\* one write(2) carrying the complete line, through one of the call's descriptors
+SysWrite(g, d) == /\ ~crashed /\ pc[g] = "formatted" /\ WriteThrough /\ d \in todo[g]
+                  /\ file' = Put(file, d, <<d, Line(g)>>)
+                  /\ off' = IF Offsets = "append" THEN off ELSE [off EXCEPT ![d] = @ + 1]
+                  /\ todo' = [todo EXCEPT ![g] = @ \ {d}]
+                  /\ pc' = [pc EXCEPT ![g] = IF todo[g] = {d} THEN "written" ELSE "formatted"]
+                  /\ UNCHANGED <<n, userBuf, acked, crashed, how>>
 BufWrite(g) == /\ ~crashed /\ pc[g] = "formatted" /\ ~WriteThrough
-               /\ userBuf' = Append(userBuf, Line(g)) /\ pc' = [pc EXCEPT ![g] = "written"]
-               /\ UNCHANGED <<n, kernel, acked, crashed, how>>
+               /\ userBuf' = userBuf \o [i \in 1..Cardinality(D) |-> <<i, Line(g)>>]
+               /\ pc' = [pc EXCEPT ![g] = "written"] /\ todo' = [todo EXCEPT ![g] = {}]
+               /\ UNCHANGED <<n, file, off, acked, crashed, how>>
 Flush == /\ ~crashed /\ userBuf # <<>>
-         /\ kernel' = kernel \cup {userBuf[i] : i \in DOMAIN userBuf} /\ userBuf' = <<>>
-         /\ UNCHANGED <<pc, n, acked, crashed, how>>
+         /\ file' = file \o userBuf /\ userBuf' = <<>>
+         /\ UNCHANGED <<pc, n, todo, off, acked, crashed, how>>
 LogReturn(g) == /\ ~crashed /\ pc[g] = "written"
                 /\ acked' = acked \cup {Line(g)} /\ pc' = [pc EXCEPT ![g] = "idle"]
-                /\ UNCHANGED <<n, userBuf, kernel, crashed, how>>
+                /\ UNCHANGED <<n, todo, userBuf, file, off, crashed, how>>
 Crash(h) == /\ ~crashed /\ crashed' = TRUE /\ how' = h /\ userBuf' = <<>>
-            /\ UNCHANGED <<pc, n, kernel, acked>>
+            /\ UNCHANGED <<pc, n, todo, file, off, acked>>
 
-Next == (\E g \in G : Call(g) \/ SysWrite(g) \/ BufWrite(g) \/ LogReturn(g)) \/ Flush
+Next == (\E g \in G : Call(g) \/ (\E d \in D : SysWrite(g, d)) \/ BufWrite(g) \/ LogReturn(g)) \/ Flush
         \/ (\E h \in {"kill", "exit"} : Crash(h))
 Spec == Init /\ [][Next]_vars
+\* in append mode the order of the records plays no role: states are identified up to it
+View == <<pc, n, todo, userBuf, IF Offsets = "append" THEN kernel ELSE file, off, acked, crashed, how>>
 
 \* every acknowledged line is in the target, at all times - hence also after a crash
-AckedSurvive == acked \subseteq kernel
+\* (one copy per descriptor of the logger)
+AckedSurvive == \A x \in acked, d \in D : <<d, x>> \in kernel
 NoUserBuffer == WriteThrough => userBuf = <<>>
 \* crash placements for the replayer: number of acknowledged calls at the crash, and the kind of crash
 Emit == crashed => PrintT(<<"EMIT", ToJson([goroutines |-> Cardinality(G), calls |-> MaxCalls,
-                                            k |-> Cardinality(acked), how |-> how])>>)
+                                            k |-> Cardinality(acked), how |-> how, twin |-> Cardinality(D) > 1])>>)
 =============================================================================
